@@ -66,15 +66,15 @@ PrintBool(b, po) ==
   IF po.bool = "token" THEN (IF b THEN <<HASH, 116>> ELSE <<HASH, 102>>)
   ELSE (IF b THEN <<116>> ELSE <<110, 105, 108>>)
 
-RECURSIVE Print(_, _), PrintTail(_, _)
+RECURSIVE PrintDatum(_, _), PrintTail(_, _)
 
 \* the rest of a list after its first element has been printed
 PrintTail(v, po) ==
   CASE v.k = "null" -> <<>>
-    [] v.k = "cons" -> <<SP>> \o Print(v.car, po) \o PrintTail(v.cdr, po)
-    [] OTHER -> <<SP, DOT, SP>> \o Print(v, po)
+    [] v.k = "cons" -> <<SP>> \o PrintDatum(v.car, po) \o PrintTail(v.cdr, po)
+    [] OTHER -> <<SP, DOT, SP>> \o PrintDatum(v, po)
 
-Print(v, po) ==
+PrintDatum(v, po) ==
   CASE v.k = "nil" ->
          (CASE po.nil = "sym" -> <<110, 105, 108>> [] po.nil = "token" -> <<HASH, 110, 105, 108>>
             [] po.nil = "null" -> <<LP, RP>> [] OTHER -> PrintBool(FALSE, po))
@@ -89,9 +89,9 @@ Print(v, po) ==
             [] po.kw = "prefix" -> <<COLON>> \o Encode(v.s)
             [] OTHER -> Encode(v.s) \o <<COLON>>)
     [] v.k = "bytes" -> PrintBytes(v.bv, po)
-    [] v.k = "cons" -> <<LP>> \o Print(v.car, po) \o PrintTail(v.cdr, po) \o <<RP>>
+    [] v.k = "cons" -> <<LP>> \o PrintDatum(v.car, po) \o PrintTail(v.cdr, po) \o <<RP>>
     [] OTHER ->     \* vec
          (IF po.vec = "octo" THEN <<HASH, LP>> ELSE <<LB>>)
-         \o Joined([i \in DOMAIN v.e |-> Print(v.e[i], po)])
+         \o Joined([i \in DOMAIN v.e |-> PrintDatum(v.e[i], po)])
          \o (IF po.vec = "octo" THEN <<RP>> ELSE <<RB>>)
 =============================================================================
